@@ -266,10 +266,10 @@ PLANS = {
     "C10": dict(rel=rel_C10, want={"np": True, "sens": True, "jac": ["SX", "MX"]},
                 quick=dict(n=3, m=3, variants=2, generic=1, corners=0, rand=40),
                 thorough=dict(n=4, m=5, variants=4, generic=1, corners=2, rand=600)),
-    "C04": dict(rel=rel_C04, traj=True, want=lambda c: {"np": False, "fn": fns((-1, 0, 1, 2, 3), more_out=(False, True), generic_calls=2)
+    "C04": dict(rel=rel_C04, traj=True, derive=("perm",), want=lambda c: {"np": False, "fn": fns((-1, 0, 1, 2, 3), more_out=(False, True), generic_calls=2)
                                              + param_fns(c, levels=(0, 1, 2), more_out=(True,), nsets=1)},
-                quick=dict(n=3, m=3, variants=1, generic=1, corners=0, rand=30),
-                thorough=dict(n=4, m=5, variants=2, generic=1, corners=1, rand=400)),
+                quick=dict(n=3, m=3, variants=1, generic=1, corners=0, rand=30, nderive=2),
+                thorough=dict(n=4, m=5, variants=2, generic=1, corners=1, rand=400, nderive=2)),
     "C11": dict(rel=rel_C11, family="opts", want={"np": True, "np_plain": True, "fn": fns((0,)) + fns((2,), syms=("SX",)) + fns((1,), more_out=(True,), syms=("MX",))},
                 quick=dict(n=3, m=3, variants=1, generic=4, corners=4, rand=0),
                 thorough=dict(n=4, m=4, variants=2, generic=8, corners=13, rand=0)),
@@ -370,7 +370,7 @@ def assess(pid, plan, recs, verdicts, info, nrand):
            "samples": [summarize(r) for r in (recs[:2] + recs[len(recs) // 2: len(recs) // 2 + 1] + recs[-2:])],
            "exhaustive": False, "topologies_exhaustive_within_bound": True,
            "explanation": (f"TLC enumerated all {info['shapes']} valid shapes with <= {info['shape_bound'][0]} nodes and "
-                           f"<= {info['shape_bound'][1]} links (up to renumbering; +8 larger patterns), x {info['variants']} "
+                           f"<= {info['shape_bound'][1]} links (up to renumbering; +10 larger patterns), x {info['variants']} "
                            f"decorations x {info['generic']} generic + {info['corners']} corner points = {info['cases']} cases, "
                            f"plus {nrand} seeded random realistic networks; every case executed by the real library and "
                            "every recorded execution validated by TLC against Metanet.tla/Compile.tla."),
